@@ -174,7 +174,9 @@ def check_set(core, parser, v, ec, rec):
         body = text.split('\r', 1)[1]
         # the same segments under a structure name the version does not know (kept as a flat message): MSH-1/MSH-2 govern
         unknown = structref.msh_line(v, 'ADT_A01', ec, msh9='XQX^Y77') + '\r' + body
-        for text, fg in ((text, True), (text, False), (unknown, True), (unknown, False)):
+        # ... and with an MSH-12 that carries the internationalization code besides the version id
+        with_vid = structref.msh_line(v, 'ADT_A01', ec, vid=True) + '\r' + body
+        for text, fg in ((text, True), (text, False), (unknown, True), (unknown, False), (with_vid, True)):
             rec.count('parser_path_texts')
             m3 = parser.parse_message(text, find_groups=fg)
             er3 = m3.to_er7()
@@ -194,6 +196,39 @@ def check_set(core, parser, v, ec, rec):
         rec.count('parser_path_ok')
     except Exception as e:
         rec.violation('raised:%s:parse' % type(e).__name__, case, {'exc': repr(e)[:200]})
+        return
+    # ---- a text declaring the same characters but the other choice about the truncation character, assigned to the built
+    # message: refused (the library's rule), or else the message consistently becomes what the text declares
+    if er7ref.vkey(v) >= (2, 7):
+        from hl7apy.exceptions import OperationNotAllowed
+        other = {k: x for k, x in ec.items() if k != 'TRUNCATION'}
+        if 'TRUNCATION' not in ec:
+            other['TRUNCATION'] = [c for c in '#!$%*+;<=>?@' if c not in ec.values()][0]
+        rec.evaluation((v, ec_tuple(ec), 'assign-other-truncation'))
+        try:
+            m4 = core.Message('ADT_A01', version=v, encoding_chars=dict(exp))
+            t4 = structref.msh_line(v, 'ADT_A01', other) + '\r' + seg + other['FIELD'] * row.num + field_text(other, crow, subs)
+            try:
+                m4.value = t4
+            except OperationNotAllowed:
+                rec.count('other_truncation_refused')
+            else:
+                rec.count('other_truncation_accepted')
+                want = dict(other, GROUP='\r', SEGMENT='\r')
+                back = parser.parse_message(m4.to_er7())
+                f4 = m4.to_er7()[3]
+                emitted = len(m4.to_er7().split(f4)[1]) == 5
+                if emitted != ('TRUNCATION' in ec):
+                    # the set was given to Message(...): its truncation character is emitted exactly when it was supplied
+                    rec.violation('truncation-character-not-emitted-exactly-when-supplied', case,
+                                  {'supplied_to_Message': ec.get('TRUNCATION'), 'msh': m4.to_er7()[:12],
+                                   'after': 'message.value = <text declaring %r>' % ''.join(ec_tuple(other))})
+                elif m4.encoding_chars != want or m4.to_er7() != t4 or back.encoding_chars != want:
+                    rec.violation('assigned-text-with-other-truncation-leaves-an-inconsistent-set', case,
+                                  {'declared': ec_tuple(other), 'getter': m4.encoding_chars.get('TRUNCATION'),
+                                   'msh': m4.to_er7()[:12], 'reparsed': back.encoding_chars.get('TRUNCATION')})
+        except Exception as e:
+            rec.violation('raised:%s:assign-other-truncation' % type(e).__name__, case, {'exc': repr(e)[:200]})
 
 
 def run_sets(spec, rec):
